@@ -97,7 +97,7 @@ def twins(tier, seed):
                     "contiguous array whose last element passes bit N-1, %s, %s" % (where, "native base" if N in NATIVE else "arbitrary-int base"), "array")
         # arrays that lie entirely above the base width
         for first in sorted({N, N + 8, S}):
-            if first > 190:
+            if first > 190 or N < 2:
                 continue
             where = "inside the storage integer" if first + 1 < S else "beyond the storage integer"
             add(_case("x", N, [bool_field("x", N - 2, array=arr(2, None, 1))]), _case("x", N, [bool_field("x", first, array=arr(2, None, 1))]), "beyond-base-width",
@@ -227,6 +227,29 @@ def twins(tier, seed):
                   lambda: uint_field("li", [(S_ - 1, S_ - 1), (0, 1)])]
         for mk in fields:
             add(_case("x", S_, [mk()]), _case("x", narrow, [mk()]), "beyond-base-width", "field text valid for u%d reused under u%d (same storage integer)" % (S_, narrow), "same-tokens")
+    # --- numbers near usize::MAX: the macro's own bounds arithmetic must not wrap (it does when the macro is built without overflow checks) ---
+    U = (1 << 64) - 1
+    for N in (8, 32, 24, 128):
+        bc = base_class(N)
+        pos = bool_field("x", 0, array=arr(3, 1))
+        neg = dict(pos, array=arr(3, 1 << 63), attr_text="#[bit(0, rw, stride = %d)]" % (1 << 63))
+        add(_case("x", N, [pos]), _case("x", N, [neg]), "beyond-base-width", "bool array with stride 2^63 (index * stride wraps), %s" % bc, "huge")
+        pos = bool_field("x", 1, array=arr(2, None, 1))
+        neg = dict(pos, ranges=[(U, U)], attr_text="#[bit(%d, rw)]" % U)
+        add(_case("x", N, [pos]), _case("x", N, [neg]), "beyond-base-width", "bool array at bit usize::MAX, %s" % bc, "huge")
+        pos = bool_field("x", 1)
+        neg = dict(pos, ranges=[(U, U)], attr_text="#[bit(%d, rw)]" % U)
+        add(_case("x", N, [pos]), _case("x", N, [neg]), "beyond-base-width", "bool at bit usize::MAX, %s" % bc, "huge")
+        pos = uint_field("x", [(5, 6), (0, 5)])
+        neg = dict(pos, ranges=[(5, U), (0, 12)], attr_text="#[bits([5..=%d, 0..=12], rw)]" % U, ty="u8", tywidth=8)
+        pos = dict(pos)
+        add(_case("x", N, [pos]), _case("x", N, [neg]), "beyond-base-width", "range list with an upper limit of usize::MAX, %s" % bc, "huge")
+        pos = uint_field("x", [(0, 3)], array=arr(2, None, 4))
+        neg = dict(pos, array=arr((1 << 62) + 1, None, 4))
+        add(_case("x", N, [pos]), _case("x", N, [neg]), "beyond-base-width", "array with 2^62+1 elements (count * stride wraps), %s" % bc, "huge")
+        pos = uint_field("x", [(0, 3)])
+        neg = dict(pos, ranges=[(U - 3, U)], attr_text="#[bits(%d..=%d, rw)]" % (U - 3, U))
+        add(_case("x", N, [pos]), _case("x", N, [neg]), "beyond-base-width", "range ending at usize::MAX, %s" % bc, "huge")
     # --- unsupported bases ---
     pos = _case("x", 32, [bool_field("x", 0)])
     for bt in ("u0", "u129", "u200", "i32", "usize", "u256", "bool"):
